@@ -242,4 +242,19 @@ CHECKS = {
         "required_probes": ["rotation_observed", "values_exchanged", "marshal_roundtrip", "previous_value_accepted_in_grace"],
         "assumptions": COMMON_ASSUMPTIONS + ["one bubble has one clock: no clock skew between the two peers"],
     },
+    "C06": {
+        "pkg": "internal/handshake",
+        "test": "TestVerifC06",
+        "level": "fault_enumeration",
+        "quick": {"procs": 32, "checks_per_proc": 1500},
+        "thorough": {"procs": 64, "checks_per_proc": 15000},
+        "rule": "one case = 2-4 honest accounts, one adversary account and 1-6 sessions, each drawn from the attack catalogue: faithful "
+                "relay; one fault on a drawn frame and direction (bit flip, truncation, oversize, drop, duplicate, negative "
+                "acknowledge, low-order/non-canonical hello, reflection); the adversary as legitimate responder / requester under its "
+                "own key; the two-phase low-order relay attack with each of 12 degenerate points; wrong target key, foreign identity and "
+                "target key types; replay of any frame recorded earlier in the run at a drawn position. non-trivial = always (every "
+                "run has the adversary on the path); distinct = distinct hash of the session trace.",
+        "required_probes": ["honest_handshake_completed", "responder_accepted", "requester_succeeded", "victim_signature_over_constant_obtained"],
+        "assumptions": COMMON_ASSUMPTIONS + ["the adversary is symbolic: it can do anything with bytes and keys it holds, it cannot forge Ed25519 signatures or open boxes without the key"],
+    },
 }
